@@ -119,12 +119,102 @@ CHECKS['C02'] = dict(
          'Sequence equality with std::vector/std::map is not decided here.',
     note='Trusted: clang lowering (libstdc++ helper templates are interpreted as IR), irdump, absint/lin, the argument '
          'contracts in checks/c02.py (iterators point into the vector at positions <= size).')
+# later extensions (helper modules hooked at the end of the checks): what they add, and the stale "not decided" phrases they replace
+EXTRA = {
+ 'C01': dict(drop=[' Excluded by precondition: a node used as its own anchor; dlist_add_* on an already linked node.'],
+             note=' A C++ node moved next to itself is covered (it ends detached); excluded by precondition: dlist_add_* on an already linked node.'),
+ 'C02': dict(drop=[' Sequence equality with std::vector/std::map is not decided here.'],
+             tech='; element-identity typestate (every live slot carries the identity of its value) compared with a reference sequence per operation',
+             text=' Contents: R-IDENT-VEC decides for 46 members of igris::vector<VTr> that the identities in [0,size) equal the reference '
+                  'sequence of the operation (erase, insert/emplace, push/pop, resize, copies, moves, range construction) and that returned '
+                  'references/iterators address the expected slot; operator< is the lexicographic comparison alone; at(size) throws; '
+                  'resize value-initialises new int elements. flat_map/flat_set contents are decided at shape level only.'),
+ 'C03': dict(drop=[' For all sizes and states; FIFO/lossless over histories is not decided.'],
+             tech='; slot-identity analysis on every ring size 2..5 x every (head, tail) with symbolic contents; RAW/LIVE typestate for typed rings',
+             text=' For all sizes and states. FIFO content (c03_content): put stores the argument in slot head_before and moves head only, get '
+                  'returns slot tail_before and moves tail only, bulk transfers move exactly min(n, room/avail) bytes in order, typed-ring '
+                  'accessors and the cyclic buffer address the reference element, and the FIFO induction is replayed on the interpreted '
+                  'transition tables against a reference deque (sizes 2..5, thorough ..7); typed rings keep every slot constructed.'),
+ 'C04': dict(drop=[' Decides these clauses for all payloads; decode(encode(p)) == p as a whole is not decided.'],
+             text=' Two scatter-gather pieces of arbitrary lengths (empty included) give a closed frame of at least total+3 and at most '
+                  '2*total+4 bytes (no piece dropped); the decoding half - the receiver clauses of C05 - is evaluated here as R-DECODE. '
+                  'decode(encode(p)) == p follows from the two halves and the CRC residue property of C17 by induction over the frame; '
+                  'that composition is stated in prose.'),
+ 'C05': dict(drop=[' Resynchronisation over whole streams is not decided.'],
+             text=' Resynchronisation is a finite case analysis over receiver configurations (idle, fresh, mid-frame, after-escape) whose '
+                  'every step is a proven clause: differing markers - a start marker from any state gives the fresh configuration (delivery '
+                  'from the first frame); START == STOP and the legacy receiver - delivery from the second frame at the latest.'),
+ 'C08': dict(drop=[' Byte-exact copied contents and comparison signs are not decided.'],
+             tech='; byte-identity analysis on small concrete sizes with symbolic contents (byte-granular memory, exact lane arithmetic)',
+             text=' Contents (c08_content): for n = 0..9 and the word-path thresholds, every alignment and every overlap offset, the bytes '
+                  'left by memcpy/memmove/memset/strcpy/strncpy/strlcpy/strcat/strncat/strdup/strndup/strlwr/strupr/strtok(_r) equal the '
+                  'definition and nothing else is written; the ten search functions return the first/last matching position; the five '
+                  'comparison functions return the sign of the first differing (folded) byte; strcasecmp folds with tolower.'),
+ 'C14': dict(drop=[' Content equality is not decided by this check.'],
+             tech='; element-identity typestate compared with a reference sequence per operation',
+             text=' Contents: R-IDENT-SVEC/-TWIN decide for N = 4, 2, 1 that the identities in [0,size) equal the reference sequence of every '
+                  'operation (copies, moves, range/initializer-list construction clamped at N, erase, push/emplace incl. aliased arguments, '
+                  'resize, clear) and that operator[]/front/back/begin/end address the expected slot.'),
+ 'C15': dict(drop=[' Equality with a reference editor over key sequences and VT100 screen equivalence are not decided.',
+                   ' Undecided: reference-editor equality, screen equivalence, history order.'],
+             tech='; byte-identity analysis of line, history and emitted terminal bytes on small concrete configurations; one-line VT100 screen model',
+             text=' Contents (c15_content): on capacities 4..8 x every len/cursor the sline operations leave exactly the reference character '
+                  'sequence; history push/recall store and bring back exactly the line of slot (head - cur) mod depth; readline_putchar per '
+                  '(state, key class) equals the reference editor step; the bytes vterm emits, replayed on a one-line VT100 model, show prompt '
+                  '+ line with the cursor at prompt + cursor after every key; the execute callback receives exactly the line. The induction '
+                  'over key sequences is not mechanised.',
+             note=' Undecided: capacities above 8 (12 thorough), the C++ twins of readline/vterm for contents.'),
+ 'C18': dict(drop=[' Output length and whole-string equality with a reference are not decided.',
+                   ' std::string is not analysed (calls are opaque);'],
+             tech='; std::string summarised by a length cell for the length / loop-structure clauses; interval-partitioned evaluation of the admission predicate and of the url character map',
+             text=' Lengths and structure (c18_len): hexascii 2n / n/2 with every byte visited; base64_encode reads inside [0,size), three '
+                  'bytes per group, tails of exactly 1 and 2, length 4*ceil(size/3); base64_decode stops at the first non-alphabet symbol P = '
+                  '4Q+k and produces 3Q + max(k-1, 0) bytes; the url-safe variants visit every position once and map only +/- and //_ ; the '
+                  'decoder admission predicate accepts each whole alphabet class and rejects the padding.',
+             note=' std::string members are summarised (length cell, exact character block).'),
+}
+for _pid, _e in EXTRA.items():
+    _c = CHECKS[_pid]
+    for _d in _e.get('drop', []):
+        assert _d in _c['text'] or _d in _c['note'], (_pid, _d)
+        _c['text'] = _c['text'].replace(_d, '')
+        _c['note'] = _c['note'].replace(_d, '')
+    _c['text'] += _e.get('text', '')
+    _c['note'] += _e.get('note', '')
+    _c['technique'] += _e.get('tech', '')
+
+# extensions of checks whose base text comes from proposed/<id>/manifest.json (applied after loading, see below)
+EXTRA_PROPOSED = {
+ 'C19': dict(drop=[' Equality of the produced tokens/strings with a reference implementation is not decided.'],
+             tech='; texts modelled as runs of symbolic length with a byte class per run for the content clauses',
+             text=' Contents (c19_content): trim returns exactly [first non-space, last non-space]; split / split_cmdargs / argvc hand out '
+                  'exactly the maximal delimiter-free ranges in order for texts with 0, 1 and 2 tokens of any length (quotes, argcmax, NUL '
+                  'behind each token); memmem results start and end with the needle\'s first and last byte and find an occurrence behind a '
+                  'prefix free of the first needle byte; path_compare_node follows the first differing byte and the shorter node sorts first; '
+                  'path results are component starts; creader skip/readline lengths, token and cursor. Texts with three or more tokens, join '
+                  'and the text produced by replace are not decided.'),
+ 'C13': dict(tech='; truth-table walks over the comparisons that choose the %g notation and the renormalisation',
+             text=' %g chooses the exponent form exactly when X < -4 or X >= P with P >= 1 (R-GSTYLE); the integer part is renormalised from '
+                  '>= base on (R-RENORM).'),
+ 'C09': dict(text=' The 16-bit counts are used unsigned both as loop bounds and as block lengths; a reader that accumulates into its target '
+                  'is handed a fresh object per value (R-FRESH).'),
+ 'C11': dict(text=' A character is consumed as a digit only if its value is below the base, also after an overflow (end pointer).'),
+ 'C12': dict(text=' igris_atof64 adds the exponent to the fraction-digit scale; local_pow accumulates at the width of its result.'),
+ 'C16': dict(text=' plan(tim, start, interval) on a pending timer moves it to the place of its new deadline; signed scenarios state the '
+                  'representability of deadlines and elapsed times explicitly (a wrap-safe due test is decided as well).'),
+}
 # checks delivered with a manifest fragment under proposed/<id>/manifest.json
 FROM_PROPOSED = ['C06', 'C07', 'C13', 'C09', 'C10', 'C11', 'C12', 'C19', 'C16', 'C20']
 for _pid in FROM_PROPOSED:
     _m = json.load(open(os.path.join(V, 'proposed', _pid.lower(), 'manifest.json')))
     CHECKS[_pid] = dict(category=_m.get('category', 'other'), design_ref='DESIGN.md 5/%s' % _pid,
                         technique=_m['technique'], text=_m['text'], note=_m['note'])
+    _e = EXTRA_PROPOSED.get(_pid, {})
+    for _d in _e.get('drop', []):
+        assert _d in CHECKS[_pid]['text'], (_pid, _d)
+        CHECKS[_pid]['text'] = CHECKS[_pid]['text'].replace(_d, '')
+    CHECKS[_pid]['text'] += _e.get('text', '')
+    CHECKS[_pid]['technique'] += _e.get('tech', '')
 ENGINE = {'C01': 'shape', 'C17': 'gf2', 'C20': 'lockflow', 'C09': 'wire', 'C06': 'printf-sx', 'C13': 'printf-sx'}
 NA_REASON = 'check not built yet (work in progress; see DESIGN.md section 9)'
 
